@@ -16,10 +16,12 @@ static std::string g_prop = "C01";
 static std::string g_trace;
 static bool g_case_bad = false;
 
-static void flag(const char *prop, const std::string &kind, const std::string &msg) {
+// `model_still_sound`: the deviation leaves the shadow model usable (the caller established that), so a check that is armed for
+// *another* property keeps driving this history and can observe what the deviation does to its own property later on.
+static void flag(const char *prop, const std::string &kind, const std::string &msg, bool model_still_sound = false) {
 	count(std::string("flagged:") + prop);
-	g_case_bad = true;
 	bool own = (g_prop == prop);
+	if(own || g_prop == "C04" || !model_still_sound) g_case_bad = true;
 	if(own || g_prop == "C04") {
 		// in the fault-injection check every C01-C03 oracle stays armed: what they flag there is a C04 violation
 		case_detail("%s", g_trace.substr(g_trace.size() > 3000 ? g_trace.size() - 3000 : 0).c_str());
@@ -48,7 +50,7 @@ struct Model {
 	~Model() { delete pool; shadow_release_all(st); g_shadow = nullptr; }
 
 	static uint8_t pat_byte(uint64_t pat, size_t i) { return (uint8_t)((pat >> ((i % 8) * 8)) ^ (i * 131)); }
-	size_t writable(const Block &b) const { return Policy::poisoning ? b.req : b.size; } // beyond the request, poisoned bytes are not the caller's
+	size_t writable(const Block &b) const { return Policy::poisoning ? b.req : std::max(b.req, b.size); } // beyond the request, poisoned bytes are not the caller's
 	void fill(uintptr_t p, const Block &b) { auto *d = (uint8_t *)p; size_t n = writable(b); for(size_t i = 0; i < n; i++) d[i] = pat_byte(b.pat, i); }
 	bool verify(uintptr_t p, const Block &b, size_t upto, const char *when) {
 		auto *d = (uint8_t *)p; size_t n = std::min(writable(b), upto);
@@ -275,7 +277,13 @@ struct Model {
 			if(!st.destroyed_in_op.empty() || !st.created_in_op.empty()) flag("C02", "inplace-realloc-remapped", "an in-place realloc mapped or unmapped memory");
 			size_t s = pool->get_size(r);
 			if(s != b.size) flag("C01", "size-changed", strf("reported size changed from %zu to %zu by an in-place realloc", b.size, s));
-			if(s < n) flag("C01", "too-small", strf("in-place realloc(%zu) kept a block of size %zu", n, s));
+			if(s < n) {
+				// A large block has its reservation to itself: if the granted request still lies inside it, the owner may use all n bytes
+				// and the history can go on (C02 then sees whether those bytes survive the next move).
+				Mapping *mm = st.find(p);
+				bool inside = b.large && mm && p + n <= mm->base + mm->len;
+				flag("C01", "too-small", strf("in-place realloc(%zu) kept a block of size %zu", n, s), inside);
+			}
 			Block nb = b; nb.req = n;
 			// only the common prefix is the caller's data
 			{ auto *d = (uint8_t *)p; for(size_t i = 0; i < keep; i++) if(d[i] != pat_byte(b.pat, i)) { flag("C02", "realloc-lost-prefix", strf("in-place realloc(%zu->%zu) changed byte %zu of the kept prefix", b.req, n, i)); break; } }
